@@ -144,6 +144,71 @@ def disabled_incremental_directives(ck):
                 break
 
 
+def options_forwarded(ck):
+    """Options of subscribe() that change the per-event responses must reach the per-event executor: with
+    hide_suggestions (and error messages compared implementation-vs-implementation), response i must equal
+    execute_sync(event i) under the same option - also for the errors-only response of a failed creation."""
+    import asyncio
+    from graphql import build_schema, execute_sync, parse
+    from graphql.execution import subscribe, ExecutionResult
+    schema = build_schema("""
+      enum Color { RED GREEN }
+      input In { color: Color }
+      type Ev { pick(c: Color): String  inp(i: In): String  n: Int }
+      type Query { ev(c: Color): Ev }
+      type Subscription { ev(c: Color): Ev }
+    """)
+    events = [{"ev": {"pick": "p", "inp": "i", "n": 1}}, {"ev": {"pick": "q", "inp": "j", "n": 2}}]
+    cases = [("subscription { ev { pick(c: REDD) n } }", {}), ("subscription { ev { inp(i: {color: GREN}) } }", {}),
+             ("subscription ($c: Color) { ev { pick(c: $c) n } }", {"c": "REDD"}), ("subscription { ev(c: GREE) { n } }", {}),
+             ("subscription ($i: In) { ev { inp(i: $i) n } }", {"i": {"colour": "RED"}})]
+    for text, variables in cases:
+        for hide in (True, False):
+            sdoc = parse(text)
+            qdoc = parse(text.replace("subscription", "query", 1))
+
+            async def run_one():
+                async def src():
+                    for e in events:
+                        yield e
+                res = subscribe(schema, sdoc, variable_values=variables, hide_suggestions=hide,
+                                subscribe_field_resolver=lambda *_a, **_k: src())
+                if hasattr(res, "__await__"):
+                    res = await res
+                if isinstance(res, ExecutionResult):
+                    return ("errors-only", [res])
+                return ("stream", [r async for r in res])
+            loop = asyncio.new_event_loop()
+            try:
+                kind, got = loop.run_until_complete(asyncio.wait_for(run_one(), 10))
+            except Exception as e:  # noqa: BLE001
+                kind, got = "raised", [type(e).__name__ + ": " + str(e)[:200]]
+            finally:
+                loop.close()
+            ck.evaluations += 1
+            ck.note_case(("options", text, hide), nontrivial=True)
+            key = f"subscribe-options:{text!r}:hide_suggestions={hide}"
+            rep = {"relation": "response i = execute(event i) under the same options", "document": text,
+                   "variables": variables, "hide_suggestions": hide}
+            want = [execute_sync(schema, qdoc, root_value=e, variable_values=variables, hide_suggestions=hide) for e in events]
+            if kind == "errors-only":
+                want = want[:1]
+            if kind == "raised" or len(got) != len(want):
+                ck.violation(key, f"subscribe(hide_suggestions={hide}) gave {kind} with {len(got)} responses, expected {len(want)}",
+                             dict(rep, impl=repr(got)[:300]))
+                continue
+            for i, (g, w) in enumerate(zip(got, want)):
+                gm = sorted((e.message, tuple(e.path or ())) for e in (g.errors or []))
+                wm = sorted((e.message, tuple(e.path or ())) for e in (w.errors or []))
+                if kind == "errors-only":
+                    gm, wm = sorted(m for m, _ in gm), sorted(m for m, _ in wm)
+                if g.data != (w.data if kind == "stream" else None) or gm != wm:
+                    ck.violation(key, f"response {i} under hide_suggestions={hide} has errors {gm!r:.200}, executing the selection "
+                                      f"set on event {i} under the same option gives {wm!r:.200}",
+                                 dict(rep, index=i, impl=repr((g.data, gm))[:400], model=repr((w.data, wm))[:400]))
+                    break
+
+
 def gen_source(items, log, gate=None):
     async def gen():
         log.append(("open",))
@@ -465,6 +530,7 @@ def run(tier):
                          {"relation": "creation failure -> single errors-only response", "document": docs[dk], "variables": repr(variables)})
     ck.count("cases", ncases)
     disabled_incremental_directives(ck)
+    options_forwarded(ck)
     return ck.finish()
 
 
